@@ -277,10 +277,10 @@ func expandPhiFacts(out []Fact) []Fact {
 				}
 			}
 			if _, isC := ConstBool(e); !isC {
+				// on this edge the phi IS e, so e has the phi's polarity (the last conjunct of
+				// `a && b` / disjunct of `a || b`, or a nested phi to expand further)
 				c, pol := normCond(e, out[i].Pol)
-				if _, isPhi := c.(*ssa.Phi); isPhi {
-					pf = append(pf, Fact{Cond: c, Pol: pol, If: out[i].If})
-				}
+				pf = append(pf, Fact{Cond: c, Pol: pol, If: out[i].If})
 			}
 			if first {
 				common, first = pf, false
@@ -1734,4 +1734,107 @@ func substParams(v ssa.Value, h *ssa.Function, c *ssa.Call, depth int) ssa.Value
 		return &nc
 	}
 	return v
+}
+
+// ---- actions performed through helpers -------------------------------------------
+
+var lockSetCache = map[*ssa.Function]*LockSets{}
+
+func lockSetsOf(f *ssa.Function) *LockSets {
+	if ls, ok := lockSetCache[f]; ok {
+		return ls
+	}
+	ls := ComputeLockSets(f, nil)
+	lockSetCache[f] = ls
+	return ls
+}
+
+// helperPerforms: h performs the action (direct, evaluated on h's own instructions) on every path
+// to a return (mode "all"), or on every path to a return whose single bool result can be true
+// (mode "true").
+func helperPerforms(h *ssa.Function, direct func(ssa.Instruction) bool, mode string) bool {
+	if h == nil || len(h.Blocks) == 0 {
+		return false
+	}
+	rets := Returns(h)
+	n := 0
+	for _, ret := range rets {
+		if mode == "true" {
+			if len(ret.Results) != 1 {
+				return false
+			}
+			if cb, isC := ConstBool(RetVal(ret, 0)); isC && !cb {
+				continue
+			}
+		}
+		n++
+		if ReachesWithout(h, ret, OrDeferred(direct)) {
+			return false
+		}
+	}
+	return n > 0
+}
+
+// performsVia: instruction in performs the action: directly, or as a call of a same-package
+// helper that performs it on all its paths, or on all its true-returning paths when `at` (the
+// place the action is needed at) is under the fact "the helper returned true".
+func performsVia(in ssa.Instruction, direct func(ssa.Instruction) bool, at *ssa.BasicBlock) bool {
+	if direct(in) {
+		return true
+	}
+	c, ok := in.(*ssa.Call)
+	if !ok {
+		return false
+	}
+	h := c.Common().StaticCallee()
+	if h == nil || h.Pkg == nil || in.Parent() == nil || h.Pkg != in.Parent().Pkg || h == in.Parent() || len(h.Blocks) == 0 {
+		return false
+	}
+	if helperPerforms(h, direct, "all") {
+		return true
+	}
+	if at != nil && h.Signature.Results().Len() == 1 {
+		for _, ft := range localFacts(at) {
+			if ft.Cond == ssa.Value(c) && ft.Pol && helperPerforms(h, direct, "true") {
+				return true
+			}
+		}
+	}
+	return false
+}
+
+// onlyCalledFromAllowed: f (an unexported helper) is reachable only through allowed functions:
+// every static call of f sits in a function whose outermost name is allowed or which itself
+// satisfies this predicate (depth 3); f has at least one caller and is never used as a value.
+func onlyCalledFromAllowed(p *Prog, f *ssa.Function, allowed map[string]bool, depth int) bool {
+	if f == nil || depth < 0 {
+		return false
+	}
+	if f.Object() != nil && f.Object().Exported() {
+		return false
+	}
+	n := 0
+	ok := true
+	for _, g := range p.Funcs {
+		Instrs(g, func(in ssa.Instruction) {
+			if ci, isC := in.(ssa.CallInstruction); isC && ci.Common().StaticCallee() == f {
+				n++
+				top := Outermost(g)
+				if !(allowed[top.Name()] || (top != f && onlyCalledFromAllowed(p, top, allowed, depth-1))) {
+					ok = false
+				}
+				return
+			}
+			// any other operand equal to f: used as a value (method value, callback)
+			var ops []*ssa.Value
+			for _, op := range in.Operands(ops) {
+				if op != nil && *op == ssa.Value(f) {
+					if ci, isC := in.(ssa.CallInstruction); !isC || ci.Common().Value != ssa.Value(f) {
+						ok = false
+					}
+				}
+			}
+		})
+	}
+	return ok && n > 0
 }
